@@ -65,4 +65,255 @@ theorem pctF_of_close (neg : Bool) (m j n6 : Nat) (hj : 20 ≤ j)
   have e2 : (-(-(j : Int))).toNat = j := by omega
   simp only [e1, if_false, e2, Nat.one_mul, hr]
 
+/-- rounding half to even moves a quotient by at most one half -/
+theorem roundHE_close (n d : Nat) (hd : 0 < d) :
+    2 * (roundHE (n / d) (n % d) d * d - n) ≤ d ∧ 2 * (n - roundHE (n / d) (n % d) d * d) ≤ d := by
+  have hdm : d * (n / d) + n % d = n := Nat.div_add_mod n d
+  have hr : n % d < d := Nat.mod_lt n hd
+  have hc : n / d * d = d * (n / d) := Nat.mul_comm _ _
+  have hs : (n / d + 1) * d = d * (n / d) + d := by rw [Nat.add_mul, hc]; simp
+  unfold roundHE
+  split
+  · rw [hc]; omega
+  · split
+    · rw [hs]; omega
+    · split
+      · rw [hc]; omega
+      · rw [hs]; omega
+
+/-- **accuracy of the float conversion of the model**: whatever exponent is chosen, the double `m · 2^-j` returned
+for `num / den` lies within half a unit in the last place, `|m / 2^j - num / den| ≤ 1 / 2^(j+1)` (the inequality is
+multiplied out) -/
+theorem roundAt_half_ulp (num den : Nat) (hd : 0 < den) (e2 : Int) (m j : Nat)
+    (h : roundAt num den e2 = some (m, -(j : Int))) (hj : 0 < j) :
+    2 * (m * den - num * 2 ^ j) ≤ den ∧ 2 * (num * 2 ^ j - m * den) ≤ den := by
+  unfold roundAt at h
+  simp only at h
+  by_cases hc : roundHE (scaledDiv num den e2).1 (scaledDiv num den e2).2.1 (scaledDiv num den e2).2.2 = 2 ^ 53
+  · -- the carry into the next binade: `e2 = -(j+1)`, rounded mantissa `2^53`
+    simp only [hc, if_true] at h
+    split at h
+    · cases h
+    · injection h with h
+      injection h with hm he
+      have he2 : e2 = -((j + 1 : Nat) : Int) := by omega
+      subst he2
+      have hneg : (-((j + 1 : Nat) : Int)) < 0 := by omega
+      have hab : (-((j + 1 : Nat) : Int)).natAbs = j + 1 := by omega
+      unfold scaledDiv at hc
+      simp only [hneg, if_true, hab] at hc
+      have := roundHE_close (num * 2 ^ (j + 1)) den hd
+      rw [hc] at this
+      subst hm
+      have e53 : (2 : Nat) ^ 53 = 2 * 2 ^ 52 := by decide
+      have ej : num * 2 ^ (j + 1) = 2 * (num * 2 ^ j) := by rw [Nat.pow_succ]; ac_rfl
+      rw [e53, ej, Nat.mul_assoc] at this
+      omega
+  · simp only [hc, if_false] at h
+    split at h
+    · cases h
+    · injection h with h
+      injection h with hm he
+      subst he
+      have hneg : (-(j : Int)) < 0 := by omega
+      have hab : (-(j : Int)).natAbs = j := by omega
+      unfold scaledDiv at hm
+      simp only [hneg, if_true, hab] at hm
+      have := roundHE_close (num * 2 ^ j) den hd
+      rw [hm] at this
+      exact this
+
+theorem nearestF64_half_ulp (num den : Nat) (hd : 0 < den) (m j : Nat)
+    (h : nearestF64 num den = some (m, -(j : Int))) (hj : 0 < j) :
+    2 * (m * den - num * 2 ^ j) ≤ den ∧ 2 * (num * 2 ^ j - m * den) ≤ den :=
+  roundAt_half_ulp num den hd _ m j h hj
+
+/-- the double of a literal with `k ≤ 6` fraction digits and digits `n` (value `n / 10^k`), when its exponent is
+`≤ -20`, is printed by `'%f'` with exactly the six-place digits `n · 10^(6-k)` -/
+theorem pctF_of_nearest (neg : Bool) (n k m j : Nat) (hk : k ≤ 6) (hj : 20 ≤ j)
+    (h : nearestF64 n (10 ^ k) = some (m, -(j : Int))) :
+    F.pctF { neg := neg, m := m, e := -(j : Int) } =
+      (if neg then [cMinus] else []) ++ natToDigits (n * 10 ^ (6 - k) / 10 ^ 6) ++ cDot ::
+        (List.replicate (6 - (natToDigits (n * 10 ^ (6 - k) % 10 ^ 6)).length) cZero ++
+          natToDigits (n * 10 ^ (6 - k) % 10 ^ 6)) := by
+  have hpos : 0 < 10 ^ k := Nat.pow_pos (by decide)
+  obtain ⟨a1, a2⟩ := nearestF64_half_ulp n (10 ^ k) hpos m j h (by omega)
+  have e6 : (10 : Nat) ^ 6 = 10 ^ k * 10 ^ (6 - k) := by rw [← Nat.pow_add]; congr 1; omega
+  have c : 0 < 10 ^ (6 - k) := Nat.pow_pos (by decide)
+  apply pctF_of_close neg m j (n * 10 ^ (6 - k)) hj
+  · -- multiply the half-ulp inequality by 10^(6-k)
+    have : 2 * (m * 10 ^ k - n * 2 ^ j) * 10 ^ (6 - k) ≤ 10 ^ k * 10 ^ (6 - k) := Nat.mul_le_mul_right _ a1
+    rw [e6]
+    have e : m * (10 ^ k * 10 ^ (6 - k)) - n * 10 ^ (6 - k) * 2 ^ j = (m * 10 ^ k - n * 2 ^ j) * 10 ^ (6 - k) := by
+      rw [Nat.sub_mul]; congr 1 <;> ac_rfl
+    rw [e]; rw [Nat.mul_assoc] at this; exact this
+  · have : 2 * (n * 2 ^ j - m * 10 ^ k) * 10 ^ (6 - k) ≤ 10 ^ k * 10 ^ (6 - k) := Nat.mul_le_mul_right _ a2
+    rw [e6]
+    have e : n * 10 ^ (6 - k) * 2 ^ j - m * (10 ^ k * 10 ^ (6 - k)) = (n * 2 ^ j - m * 10 ^ k) * 10 ^ (6 - k) := by
+      rw [Nat.sub_mul]; congr 1 <;> ac_rfl
+    rw [e]; rw [Nat.mul_assoc] at this; exact this
+
+/-- **the window**: a normal double (`2^52 ≤ m`) `m · 2^-j` that is the conversion of a decimal `n / 10^k` with at most
+six fraction digits and value below `2^33` has `j ≥ 20` — below `2^33` half an ulp is less than half a unit of the
+sixth decimal (`10^6 < 2^20`), which is exactly why the window of `C18-float-digits` ends at `2^33` -/
+theorem window_exponent (n k m j : Nat) (hk : k ≤ 6) (hj : 0 < j) (hm : 2 ^ 52 ≤ m)
+    (hn : n < 2 ^ 33 * 10 ^ k) (h : nearestF64 n (10 ^ k) = some (m, -(j : Int))) : 20 ≤ j := by
+  have hpos : 0 < 10 ^ k := Nat.pow_pos (by decide)
+  obtain ⟨a1, _⟩ := nearestF64_half_ulp n (10 ^ k) hpos m j h hj
+  have hT : 10 ^ k ≤ 10 ^ 6 := Nat.pow_le_pow_right (by decide) hk
+  have hA : 2 ^ 52 * 10 ^ k ≤ m * 10 ^ k := Nat.mul_le_mul_right _ hm
+  apply Classical.byContradiction
+  intro hlt
+  have hj19 : j ≤ 19 := by omega
+  have hB : n * 2 ^ j ≤ n * 2 ^ 19 := Nat.mul_le_mul_left _ (Nat.pow_le_pow_right (by decide) hj19)
+  generalize 10 ^ k = T at *
+  generalize m * T = A at *
+  generalize n * 2 ^ j = B at *
+  have e52 : (2 : Nat) ^ 52 = 4503599627370496 := by decide
+  have e33 : (2 : Nat) ^ 33 = 8589934592 := by decide
+  have e19 : (2 : Nat) ^ 19 = 524288 := by decide
+  have e6 : (10 : Nat) ^ 6 = 1000000 := by decide
+  rw [e52] at hA; rw [e33] at hn; rw [e19] at hB; rw [e6] at hT
+  omega
+
+/-- for every literal with at most six fraction digits and value below `2^33` whose double is normal with a negative
+exponent, `'%f'` of that double prints exactly the literal's value on six places -/
+theorem pctF_in_window (neg : Bool) (n k m j : Nat) (hk : k ≤ 6) (hj : 0 < j) (hm : 2 ^ 52 ≤ m)
+    (hn : n < 2 ^ 33 * 10 ^ k) (h : nearestF64 n (10 ^ k) = some (m, -(j : Int))) :
+    F.pctF { neg := neg, m := m, e := -(j : Int) } =
+      (if neg then [cMinus] else []) ++ natToDigits (n * 10 ^ (6 - k) / 10 ^ 6) ++ cDot ::
+        (List.replicate (6 - (natToDigits (n * 10 ^ (6 - k) % 10 ^ 6)).length) cZero ++
+          natToDigits (n * 10 ^ (6 - k) % 10 ^ 6)) :=
+  pctF_of_nearest neg n k m j hk (window_exponent n k m j hk hj hm hn h) h
+
+theorem scaledDiv_neg (num den t : Nat) (ht : 0 < t) :
+    scaledDiv num den (-(t : Int)) = (num * 2 ^ t / den, num * 2 ^ t % den, den) := by
+  have hneg : (-(t : Int)) < 0 := by omega
+  have hab : (-(t : Int)).natAbs = t := by omega
+  simp [scaledDiv, hab, ht]
+
+/-- **the exponent the conversion chooses**: for `0 < num / den < 2^W`, `W ≤ 51`, with `den < 2^20` (decimals with at
+most six fraction digits) `chooseExp` returns a negative exponent `-t`, `t ≥ 52 - W`, at which the truncated quotient
+has exactly 53 bits -/
+theorem chooseExp_window_gen (W : Nat) (hW : W ≤ 51) (num den : Nat) (hnum : 0 < num) (hden : 0 < den)
+    (hwin : num < 2 ^ W * den) (hsmall : den < 2 ^ 20) :
+    ∃ t : Nat, chooseExp num den = -(t : Int) ∧ 52 - W ≤ t ∧ 0 < t ∧ 2 ^ 52 ≤ num * 2 ^ t / den ∧
+      num * 2 ^ t / den < 2 ^ 53 := by
+  have ha1 := Nat.log2_self_le (Nat.pos_iff_ne_zero.mp hnum)
+  have ha2 := @Nat.lt_log2_self num
+  have hb1 := Nat.log2_self_le (Nat.pos_iff_ne_zero.mp hden)
+  have hb2 := @Nat.lt_log2_self den
+  unfold chooseExp
+  generalize Nat.log2 num = a at *
+  generalize Nat.log2 den = b at *
+  have hb20 : b < 20 := by
+    have : 2 ^ b < 2 ^ 20 := Nat.lt_of_le_of_lt hb1 hsmall
+    exact (Nat.pow_lt_pow_iff_right (by decide)).mp this
+  have hab : a < W + 1 + b := by
+    have h1 : 2 ^ a < 2 ^ W * 2 ^ (b + 1) :=
+      Nat.lt_of_le_of_lt ha1 (Nat.lt_trans hwin ((Nat.mul_lt_mul_left (Nat.pow_pos (by decide))).mpr hb2))
+    rw [← Nat.pow_add] at h1
+    have := (Nat.pow_lt_pow_iff_right (by decide)).mp h1
+    omega
+  -- s = -(e0)
+  obtain ⟨s, hs⟩ : ∃ s : Nat, s = 52 + b - a := ⟨_, rfl⟩
+  have hs19 : 52 - W ≤ s := by omega
+  have hs1 : 1 ≤ s := by omega
+  have hs71 : s ≤ 71 := by omega
+  have he0 : (a : Int) - (b : Int) - 52 = -(s : Int) := by omega
+  have he1 : -(s : Int) - 1 = -((s + 1 : Nat) : Int) := by omega
+  have e1 : 2 ^ a * 2 ^ s = 2 ^ 52 * 2 ^ b := by
+    rw [← Nat.pow_add, ← Nat.pow_add]; congr 1; omega
+  have e2 : 2 ^ (a + 1) * 2 ^ s = 2 * (2 ^ 52 * 2 ^ b) := by
+    rw [Nat.pow_succ, Nat.mul_right_comm, e1, Nat.mul_comm]
+  have hX1 : 2 ^ 52 * 2 ^ b ≤ num * 2 ^ s := e1 ▸ Nat.mul_le_mul_right (2 ^ s) ha1
+  have hX2 : num * 2 ^ s < 2 * (2 ^ 52 * 2 ^ b) :=
+    e2 ▸ (Nat.mul_lt_mul_right (Nat.pow_pos (by decide))).mpr ha2
+  have hX' : num * 2 ^ (s + 1) = 2 * (num * 2 ^ s) := by rw [Nat.pow_succ]; ac_rfl
+  have e52 : (2 : Nat) ^ 52 = 4503599627370496 := by decide
+  have e53 : (2 : Nat) ^ 53 = 9007199254740992 := by decide
+  have hb2' : den < 2 * 2 ^ b := by rw [Nat.pow_succ] at hb2; omega
+  -- the quotient at e0 is below 2^53, the one at e0 - 1 at least 2^52
+  have q0lt : num * 2 ^ s / den < 2 ^ 53 := by
+    rw [Nat.div_lt_iff_lt_mul hden, e53]; rw [e52] at hX2; omega
+  simp only [he0, he1, scaledDiv_neg num den s (by omega), scaledDiv_neg num den (s + 1) (by omega)]
+  by_cases hp : 2 ^ 52 ≤ num * 2 ^ s / den
+  · refine ⟨s, ?_, hs19, hs1, hp, q0lt⟩
+    simp only [hp, q0lt, decide_true, Bool.and_self, if_true]
+    have : ¬ (-(s : Int) < -1074) := by omega
+    rw [if_neg this]
+  · have hp' : num * 2 ^ s / den < 2 ^ 52 := Nat.lt_of_not_ge hp
+    have q1ge : 2 ^ 52 ≤ num * 2 ^ (s + 1) / den := by
+      rw [Nat.le_div_iff_mul_le hden, hX', e52]; rw [e52] at hX1; omega
+    have q1lt : num * 2 ^ (s + 1) / den < 2 ^ 53 := by
+      rw [Nat.div_lt_iff_lt_mul hden, hX', e53]
+      rw [Nat.div_lt_iff_lt_mul hden, e52] at hp'; omega
+    refine ⟨s + 1, ?_, by omega, by omega, q1ge, q1lt⟩
+    simp only [hp, q1ge, q1lt, decide_true, decide_false, Bool.false_and, Bool.and_self, if_true, if_false,
+      Bool.false_eq_true]
+    have : ¬ (-((s + 1 : Nat) : Int) < -1074) := by omega
+    rw [if_neg this]
+
+/-- the instance for the window of `C18-float-digits`: below `2^33` the exponent is at most `-19` -/
+theorem chooseExp_window (num den : Nat) (hnum : 0 < num) (hden : 0 < den) (hwin : num < 2 ^ 33 * den)
+    (hsmall : den < 2 ^ 20) :
+    ∃ t : Nat, chooseExp num den = -(t : Int) ∧ 19 ≤ t ∧ 2 ^ 52 ≤ num * 2 ^ t / den ∧ num * 2 ^ t / den < 2 ^ 53 := by
+  obtain ⟨t, h1, h2, _, h4, h5⟩ := chooseExp_window_gen 33 (by decide) num den hnum hden hwin hsmall
+  exact ⟨t, h1, by omega, h4, h5⟩
+
+theorem roundHE_bounds (q r d : Nat) : q ≤ roundHE q r d ∧ roundHE q r d ≤ q + 1 := by
+  unfold roundHE
+  split
+  · omega
+  · split
+    · omega
+    · split <;> omega
+
+/-- inside the window the conversion returns a normal double with a negative exponent -/
+theorem nearestF64_window (num den : Nat) (hnum : 0 < num) (hden : 0 < den) (hwin : num < 2 ^ 33 * den)
+    (hsmall : den < 2 ^ 20) :
+    ∃ m j : Nat, nearestF64 num den = some (m, -(j : Int)) ∧ 0 < j ∧ 2 ^ 52 ≤ m := by
+  obtain ⟨t, ht, h19, hq1, hq2⟩ := chooseExp_window num den hnum hden hwin hsmall
+  have hb := roundHE_bounds (num * 2 ^ t / den) (num * 2 ^ t % den) den
+  unfold nearestF64 roundAt
+  simp only [ht, scaledDiv_neg num den t (by omega)]
+  by_cases hc : roundHE (num * 2 ^ t / den) (num * 2 ^ t % den) den = 2 ^ 53
+  · refine ⟨2 ^ 52, t - 1, ?_, by omega, Nat.le_refl _⟩
+    have e : -(t : Int) + 1 = -((t - 1 : Nat) : Int) := by omega
+    have hno : ¬ (-((t - 1 : Nat) : Int) + 52 ≥ 1024) := by omega
+    simp only [hc, if_true, e, hno, if_false]
+  · refine ⟨roundHE (num * 2 ^ t / den) (num * 2 ^ t % den) den, t, ?_, by omega, Nat.le_trans hq1 hb.1⟩
+    have hno : ¬ (-(t : Int) + 52 ≥ 1024) := by omega
+    simp only [hc, if_false, hno]
+
+/-- **the `'%f'` step of the bridge on the whole window, without hypotheses on the double**: for every non-zero
+literal with digits `n`, `k ≤ 6` fraction digits and value below `2^33`, the double that the conversion returns is
+printed by `'%f'` as exactly `n · 10^(6-k)` on six places -/
+theorem pctF_window (neg : Bool) (n k : Nat) (hk : k ≤ 6) (hn0 : 0 < n) (hn : n < 2 ^ 33 * 10 ^ k) :
+    ∃ m j : Nat, nearestF64 n (10 ^ k) = some (m, -(j : Int)) ∧
+      F.pctF { neg := neg, m := m, e := -(j : Int) } =
+        (if neg then [cMinus] else []) ++ natToDigits (n * 10 ^ (6 - k) / 10 ^ 6) ++ cDot ::
+          (List.replicate (6 - (natToDigits (n * 10 ^ (6 - k) % 10 ^ 6)).length) cZero ++
+            natToDigits (n * 10 ^ (6 - k) % 10 ^ 6)) := by
+  have hpos : 0 < 10 ^ k := Nat.pow_pos (by decide)
+  have hsm : 10 ^ k < 2 ^ 20 :=
+    Nat.lt_of_le_of_lt (Nat.pow_le_pow_right (by decide) hk) (by decide)
+  obtain ⟨m, j, h, hj, hm⟩ := nearestF64_window n (10 ^ k) hn0 hpos hn hsm
+  exact ⟨m, j, h, pctF_in_window neg n k m j hk hj hm hn h⟩
+
+/-- the same through `float(sign + ip + '.' + fp)` -/
+theorem toF64_pctF_window (sign ip fp : List Nat) (hk : fp.length ≤ 6) (hn0 : natOfDigits (ip ++ fp) ≠ 0)
+    (hn : natOfDigits (ip ++ fp) < 2 ^ 33 * 10 ^ fp.length) :
+    ∃ x : F64, toF64 sign ip fp = some x ∧
+      F.pctF x =
+        (if sign == [cMinus] then [cMinus] else []) ++
+          natToDigits (natOfDigits (ip ++ fp) * 10 ^ (6 - fp.length) / 10 ^ 6) ++ cDot ::
+          (List.replicate (6 - (natToDigits (natOfDigits (ip ++ fp) * 10 ^ (6 - fp.length) % 10 ^ 6)).length) cZero ++
+            natToDigits (natOfDigits (ip ++ fp) * 10 ^ (6 - fp.length) % 10 ^ 6)) := by
+  obtain ⟨m, j, h, hp⟩ := pctF_window (sign == [cMinus]) (natOfDigits (ip ++ fp)) fp.length hk
+    (Nat.pos_of_ne_zero hn0) hn
+  refine ⟨{ neg := sign == [cMinus], m := m, e := -(j : Int) }, ?_, hp⟩
+  unfold toF64
+  simp only [hn0, if_false, h]
+
 end CssVerif.Num
